@@ -753,6 +753,8 @@ def runtime_cfg(scn, facts, lookups="all", shared_names=False):
             "trace": scn.get("trace", scn["id"] % 3 != 0),
             # one scenario in five is started twice on the same instances (the second start must look like the first)
             "twice": scn.get("twice", scn["id"] % 5 == 4),
+            # every other one of those RESTARTS the same App value (Run again with a fresh registry, factory and configure)
+            "sameapp": bool(scn.setdefault("sameapp", scn["id"] % 10 == 9)),
             # one scenario in four comes after ANOTHER App of the same worker process, over instances of its own of the same
             # types, in which an application-defined post-processor rewrote the tag arguments (qualifier, required, values in
             # place) of every injection point: a start is independent of earlier starts, the scenario must look as always
@@ -1164,6 +1166,7 @@ def scenario_stats(scns, by_id):
                 sum(1 for s in scns if s["id"] in by_id and foreign_first(s)),
             "another_app_started_between_the_start_and_the_lookups":
                 sum(1 for s in scns if s["id"] in by_id and later_app(s)),
+            "restarted_the_same_App_value": sum(1 for s in scns if s["id"] in by_id and s.get("sameapp", s["id"] % 10 == 9)),
             "ended_with_GetComponents": sum(1 for s in scns if s["id"] in by_id and s.get("bulk", s["id"] % 3 == 1))}
 
 
